@@ -75,6 +75,14 @@ def env_base():
     env = {k: getattr(C, k) for k in dir(C) if not k.startswith("_")}
     env.update({k: getattr(L, k) for k in dir(L) if not k.startswith("_")})
     env["byte"] = C.Byte
+
+    def HOOK(obj, ctx):
+        """a parsed hook that matters: it refuses some values (a hook runs after the member it is attached to was parsed)"""
+        v = obj if isinstance(obj, int) else obj.get("value", 0) if isinstance(obj, dict) else 0
+        if isinstance(v, int) and v % 3 == 1:
+            raise C.ValidationError("hook refuses %r" % (v,))
+    env["HOOK"] = HOOK
+    env["parsedhook"] = HOOK
     return env
 
 
@@ -140,7 +148,9 @@ def instantiations(sides):
         # both are macros over a sub-construct; Restreamed is the unsized implementation, so use sub-constructs of both kinds
         if sides[0] == "Bitwise":
             subs = [("Struct(Nibble,Nibble)", 'Struct("a" / Nibble, "b" / Nibble)'), ("BitsInteger(16)", "BitsInteger(16)"), ("GreedyRange(Bit)", "GreedyRange(Bit)"),
-                    ("Bits(this._params.w)", "BitsInteger(this._params.w)")]
+                    ("Bits(this._params.w)", "BitsInteger(this._params.w)"),
+                    # inner constructs of less than one byte and of no width at all (the region takes nothing / is refused; what follows is untouched)
+                    ("Nibble", "Nibble"), ("Bit", "Bit"), ("BitsInteger(7)", "BitsInteger(7)"), ("Struct()", "Struct()"), ("Array(0,Bit)", "Array(0, Bit)"), ("Pass", "Pass"), ("Padding(0)", "Padding(0)")]
             for label, src in subs:
                 add(label, {}, ["Bitwise(%s)" % src, sides[1].replace("subcon", src)])
         else:
@@ -149,7 +159,8 @@ def instantiations(sides):
                 add(label, {}, ["Bitwise(Struct('h' / Octet, 'x' / Bytewise(%s)))" % src, "Bitwise(Struct('h' / Octet, 'x' / %s))" % sides[1].replace("subcon", src)])
         return out
     if "parsedhook" in names:
-        return []          # a hook is a user callback: nothing extensional to compare beyond the wrapped field; covered by the comment/name lines
+        add("hook refusing some values", {})          # both spellings attach the same hook: it must run (and refuse) in both
+        return out
     # laws without free names: evaluate as they are (aliases, Int24ul chain, Bit/Nibble/Octet, "num"/Byte, Byte*"comment")
     free = names - set(env_base()) - {"newname", "newdocs", "newparsed", "num", "comment", "swapped", "True", "False"}
     if not free:
@@ -309,6 +320,10 @@ def fixed_table():
     for x in ("Byte", "Int32ub", "Int16sl", "Int24ul", "Bytes(3)", "GreedyBytes", "VarInt", "Struct('a' / Byte)", "RawCopy(Int16ub)", "Flag", "CString('utf8')"):
         t.append(("Hex docstring: only difference is pretty-printing", x, ["Hex(%s)" % x, x], {}))
         t.append(("HexDump docstring: only difference is pretty-printing", x, ["HexDump(%s)" % x, x], {}))
+    # ... also when the wrapped construct carries a parsed hook (the wrapper forwards to the construct as a whole, hooks included)
+    for x in ("Int16ub * HOOK", "Byte * HOOK", "RawCopy(Int16ub) * HOOK", "Struct('a' / (Byte * HOOK), 'b' / Byte)", "Array(2, Byte * HOOK)"):
+        t.append(("Hex docstring: only difference is pretty-printing", "hooked " + x, ["Hex(%s)" % x, x], {}))
+        t.append(("HexDump docstring: only difference is pretty-printing", "hooked " + x, ["HexDump(%s)" % x, x], {}))
     for x, n in (("Byte", 3), ("Int16ub", 0), ("Byte", "this._params.c"), ("CString('ascii')", 2)):
         t.append(("operator x[n]", "%s[%s]" % (x, n), ["%s[%s]" % (x, n), "Array(%s, %s)" % (n, x)], {}))
     t.append(("operator a + b", "", ["'a' / Byte + 'b' / Int16ub", "Struct('a' / Byte, 'b' / Int16ub)"], {}))
